@@ -166,3 +166,269 @@ Proof.
   split; [intros r; destruct r; vm_compute; reflexivity|].
   intros c; destruct c; vm_compute; reflexivity.
 Qed.
+
+(** * Granularity: the atomic steps of Msv / Mseq above the lock manager are critical sections of the CURRENT source
+
+    Gen/Atomic.v (harness/cmd/gen2coq/atomic.go) lists, for every method of the session manager (server/session) and of the
+    timer map (timermap), its effects in source order — reads, writes, deletions and ranges of the guarded map, assignments of the
+    map field, Stop/Reset of a time.Timer, time.AfterFunc, the rewrite of the state file (ESave: a call of a method of the same
+    receiver that writes the store; EStoreWrite: the store's Write itself) — each with the guard it executes under (WLock / RLock /
+    NoLock of the type's one mutex) and the number of its critical section, closed under calls of methods of the same receiver.
+    The checkers below are evaluated on that data by the guard lemmas of Proofs/GenAtomic.v ([Sv_granularity_session],
+    [Sv_granularity_timermap], [Sv_granularity_store], [atomic_ok]) — kept in a file of their own so that a change of the locking
+    discipline breaks the properties that rest on it (C04 C05 C06 C08 C09 C10 C11 C18) and not C14, which is the only other
+    importer of this file. What they justify:
+
+    Model/Sv.v (header: "Everything ABOVE the lock manager is fine-grained: one [VRun tid] executes one internally synchronised
+    operation"; "The state file is rewritten through a temporary file and an atomic rename, so a rewrite is one step"):
+      - VSessAdd, VSessRemove / VCbSessRemove, VDsDestroy, VDsNoClear (DestroySessionIfEmpty), VConnect (CreateSession): ONE step
+        that updates [v_sess] AND (for all but CreateSession) sets [v_file := Some v_sess] ([vsave]). [session_mutations_atomic]:
+        every method of the session manager that changes the map has ALL its map effects and its ESave/EStoreWrite effects under
+        WLock, in ONE critical section, the store written after the map was changed and no change after the last write; the four
+        saving methods do save, CreateSession does not. So no other session-manager step can run between the change of the map
+        and the rewrite of the file, and the file image is always the map of some model state.
+      - the listing read by the probes / by ListLocks ([v_sess] as a whole): [session_reads_locked]: Locks() reads under a lock.
+      - VTmAdd, VTmRemove / VCbTmRemove / VDsTmRemove, VTmReset, VShTimers: ONE step each on [v_timers] and [v_theap] (lookup,
+        Stop / Reset of the timer, map update). [timermap_ops_atomic]: in Add, Remove, Reset and shutdown every map effect and
+        every ETimerStop / ETimerReset / EAfterFunc is under WLock in ONE critical section.
+      - SExpire's three steps VCbUnlock; VCbSessRemove; VCbTmRemove: the function time.AfterFunc runs calls the server's
+        onTimeout with NO lock of the timer map held (so its Unlock and RemoveLock interleave freely with everything else) and
+        only then TimerMap.Remove, itself one critical section: [callback_then_remove].
+    Model/Seq.v (one event runs to quiescence; its AddLock / RemoveLock / DestroySession / timer Add / Remove / Reset sub-steps are the
+    same methods): quiescence presupposes that none of these methods leaves work behind that runs after it returned — the same
+    facts: the save and the timer operation are inside the method's critical section, not after it or on another goroutine.
+
+    Exceptions by name ([session_startup_methods]) — they run before the server accepts requests, when no other goroutine has the
+    manager: NewManager (the constructor's composite literal creates the map), Load (server.New reads the state file and
+    assigns the map before the listeners start; the model's ERestart), SetStore (replaces the store; used by tests before the
+    manager is shared — it is under the write lock anyway). Helper methods that never touch the mutex, are only called by other
+    methods and are not referred to from another package ([session_helpers], e.g. Save) are judged where they are called. *)
+From Ldlm Require Import Gen.Atomic.
+
+Definition scat (l : list string) : string := List.fold_right String.append EmptyString l.
+
+Definition guard_eqb (a b : lkguard) : bool :=
+  match a, b with WLock, WLock | RLock, RLock | NoLock, NoLock => true | _, _ => false end.
+Definition guard_name (g : lkguard) : string :=
+  match g with WLock => "WLock" | RLock => "RLock" | NoLock => "NoLock" end%string.
+Definition effect_name (e : effect) : string :=
+  match e with
+  | EMapRead => "EMapRead" | EMapWrite => "EMapWrite" | EMapDelete => "EMapDelete" | EMapRange => "EMapRange"
+  | EFieldAssign => "EFieldAssign" | EStoreAssign => "EStoreAssign"
+  | ETimerStop => "ETimerStop" | ETimerReset => "ETimerReset" | EAfterFunc => "EAfterFunc"
+  | ESave => "ESave" | EStoreWrite => "EStoreWrite" | EUserCallback => "EUserCallback"
+  | ECall c => String.append "ECall " c
+  end%string.
+
+Definition e_kind (x : eff) : effect := fst (fst x).
+Definition e_guard (x : eff) : lkguard := snd (fst x).
+Definition e_sec (x : eff) : nat := snd x.
+
+Definition is_mut (e : effect) : bool := match e with EMapWrite | EMapDelete | EFieldAssign => true | _ => false end.
+Definition is_map (e : effect) : bool := match e with EMapRead | EMapWrite | EMapDelete | EMapRange | EFieldAssign => true | _ => false end.
+Definition is_save (e : effect) : bool := match e with ESave | EStoreWrite => true | _ => false end.
+Definition is_timer (e : effect) : bool := match e with ETimerStop | ETimerReset | EAfterFunc => true | _ => false end.
+Definition is_kind (n : string) (x : eff) : bool := String.eqb (effect_name (e_kind x)) n.
+Definition has_kind (n : string) (effs : list eff) : bool := List.existsb (is_kind n) effs.
+
+Definition rel_session (x : eff) : bool := is_map (e_kind x) || is_save (e_kind x).
+Definition rel_timer (x : eff) : bool := is_map (e_kind x) || is_timer (e_kind x).
+Definition mutates (effs : list eff) : bool := List.existsb (fun x => is_mut (e_kind x)) effs.
+(** the rewrite of the state file itself: EStoreWrite (ESave marks the CALL of a method that contains one; the callee's effects,
+    the EStoreWrite among them, follow it inlined — so the order of map change and rewrite is read off the EStoreWrite) *)
+Definition is_write (e : effect) : bool := match e with EStoreWrite => true | _ => false end.
+Definition saves (effs : list eff) : bool := List.existsb (fun x => is_write (e_kind x)) effs.
+
+Definition str_in (s : string) (l : list string) : bool := List.existsb (String.eqb s) l.
+Definition lookup_method (n : string) (ms : list (string * list eff)) : option (list eff) :=
+  option_map snd (List.find (fun p => String.eqb (fst p) n) ms).
+Definition nil_b {A} (l : list A) : bool := match l with [] => true | _ => false end.
+
+(** the critical section a step must be: that of its first relevant effect *)
+Definition first_sec (rel : eff -> bool) (effs : list eff) : nat :=
+  match List.find rel effs with Some x => e_sec x | None => 0%nat end.
+
+(** [one_section_violations m rel effs]: every effect selected by [rel] is under WLock and in the critical section of the first one *)
+Definition one_section_at (m : string) (rel : eff -> bool) (s0 : nat) (x : eff) : list string :=
+  if rel x then
+    if guard_eqb (e_guard x) WLock then
+      if Nat.eqb (e_sec x) s0 then [] else [scat [m; ": "; effect_name (e_kind x); " under WLock, but in another critical section than the first guarded effect"]%string]
+    else [scat [m; ": "; effect_name (e_kind x); " under "; guard_name (e_guard x)]%string]
+  else [].
+Definition one_section_violations (m : string) (rel : eff -> bool) (effs : list eff) : list string :=
+  List.flat_map (one_section_at m rel (first_sec rel effs)) effs.
+
+(** suffix after the last element satisfying p (the whole list when there is none); prefix before the first *)
+Fixpoint after_last {A} (p : A -> bool) (l : list A) : list A :=
+  match l with
+  | [] => []
+  | x :: r => if List.existsb p r then after_last p r else if p x then r else x :: r
+  end.
+Fixpoint before_first {A} (p : A -> bool) (l : list A) : list A :=
+  match l with
+  | [] => []
+  | x :: r => if p x then [] else x :: before_first p r
+  end.
+Fixpoint after_first {A} (p : A -> bool) (l : list A) : list A :=
+  match l with
+  | [] => []
+  | x :: r => if p x then r else after_first p r
+  end.
+
+(** ** the session manager *)
+Definition session_startup_methods : list string := ["NewManager"; "Load"; "SetStore"]%string.
+Definition session_saving_methods : list string := ["AddLock"; "RemoveLock"; "DestroySession"; "DestroySessionIfEmpty"]%string.
+Definition session_nonsaving_mutators : list string := ["CreateSession"]%string.
+
+Definition session_method_violations (m : string) (effs : list eff) : list string :=
+  if mutates effs then
+    one_section_violations m rel_session effs ++
+    (if saves effs then
+       (if mutates (after_last (fun x => is_write (e_kind x)) effs) then [scat [m; ": the map is changed after the last write of the store"]%string] else []) ++
+       (if mutates (before_first (fun x => is_write (e_kind x)) effs) then [] else [scat [m; ": the store is written before the map is changed"]%string])
+     else [])
+  else [].
+
+Definition session_violations (ms : list (string * list eff)) (helpers : list string) : list string :=
+  List.flat_map (fun p => if str_in (fst p) session_startup_methods || str_in (fst p) helpers then [] else session_method_violations (fst p) (snd p)) ms ++
+  List.flat_map (fun m => match lookup_method m ms with
+                          | None => [scat [m; ": method not found"]%string]
+                          | Some effs => (if mutates effs then [] else [scat [m; ": no change of the map recognised"]%string]) ++
+                                         (if saves effs then [] else [scat [m; ": does not write the store"]%string])
+                          end) session_saving_methods ++
+  List.flat_map (fun m => match lookup_method m ms with
+                          | None => [scat [m; ": method not found"]%string]
+                          | Some effs => (if mutates effs then [] else [scat [m; ": no change of the map recognised"]%string]) ++
+                                         (if saves effs then [scat [m; ": writes the store (the model's step does not)"]%string] else [])
+                          end) session_nonsaving_mutators ++
+  List.flat_map (fun m => if str_in m helpers then [scat [m; ": is a helper without a lock of its own, yet the server calls it"]%string] else [])
+                (session_saving_methods ++ session_nonsaving_mutators ++ ["Locks"]%string).
+
+Definition session_mutations_atomic (ms : list (string * list eff)) (helpers : list string) : bool := nil_b (session_violations ms helpers).
+
+Definition reads_violations (ms : list (string * list eff)) : list string :=
+  match lookup_method "Locks"%string ms with
+  | None => ["Locks: method not found"%string]
+  | Some effs =>
+      (if List.existsb (fun x => is_map (e_kind x)) effs then [] else ["Locks: no read of the map recognised"%string]) ++
+      List.flat_map (fun x => if is_map (e_kind x) && guard_eqb (e_guard x) NoLock
+                              then [scat ["Locks: "; effect_name (e_kind x); " under NoLock"]%string] else []) effs ++
+      List.flat_map (fun x => if is_map (e_kind x) && negb (Nat.eqb (e_sec x) (first_sec (fun y => is_map (e_kind y)) effs))
+                              then [scat ["Locks: "; effect_name (e_kind x); " is not in the critical section of the first read"]%string] else []) effs
+  end.
+Definition session_reads_locked (ms : list (string * list eff)) : bool := nil_b (reads_violations ms).
+
+(** ** the timer map *)
+Definition timermap_ops : list (string * list string) :=
+  [("Add", ["EAfterFunc"; "EMapWrite"]); ("Remove", ["ETimerStop"; "EMapDelete"]); ("Reset", ["ETimerStop"; "ETimerReset"]); ("shutdown", ["ETimerStop"])]%string.
+
+(** the function time.AfterFunc runs: calls of other helpers of the receiver aside, FIRST the user's callback with no lock
+    held, THEN Remove (called with no lock held; its own effects, inlined, are one WLock critical section that deletes the entry) *)
+Definition callback_violations (m : string) (effs : list eff) : list string :=
+  let other_call (x : eff) := match e_kind x with ECall c => negb (String.eqb c "Remove") | _ => false end in
+  match List.filter (fun x => negb (other_call x)) effs with
+  | a :: b :: rest =>
+      (if is_kind "EUserCallback" a && guard_eqb (e_guard a) NoLock then [] else [scat [m; ": does not start with the user callback under NoLock but with "; effect_name (e_kind a); " under "; guard_name (e_guard a)]%string]) ++
+      (if is_kind "ECall Remove" b && guard_eqb (e_guard b) NoLock then [] else [scat [m; ": the user callback is not followed by Remove under NoLock but by "; effect_name (e_kind b); " under "; guard_name (e_guard b)]%string]) ++
+      (if has_kind "EUserCallback" rest || has_kind "ECall Remove" rest then [scat [m; ": more than one user callback / Remove"]%string] else []) ++
+      (if has_kind "EMapDelete" rest then [] else [scat [m; ": Remove does not delete the entry"]%string]) ++
+      (if nil_b (one_section_violations m rel_timer rest) then [] else [scat [m; ": the Remove it ends with is not one WLock critical section"]%string])
+  | _ => [scat [m; ": not (user callback; Remove)"]%string]
+  end.
+Definition callback_then_remove (cbs : list (string * list eff)) : bool :=
+  negb (nil_b cbs) && nil_b (List.flat_map (fun p => callback_violations (fst p) (snd p)) cbs).
+
+Definition timermap_violations (ms cbs : list (string * list eff)) : list string :=
+  List.flat_map (fun op => match lookup_method (fst op) ms with
+                           | None => [scat [fst op; ": method not found"]%string]
+                           | Some effs =>
+                               List.flat_map (fun k => if has_kind k effs then [] else [scat [fst op; ": no "; k; " recognised"]%string]) (snd op) ++
+                               one_section_violations (fst op) rel_timer effs
+                           end) timermap_ops ++
+  (if nil_b cbs then ["no function run by time.AfterFunc found"%string] else []) ++
+  List.flat_map (fun p => callback_violations (fst p) (snd p)) cbs.
+Definition timermap_ops_atomic (ms cbs : list (string * list eff)) : bool := nil_b (timermap_violations ms cbs).
+
+(** ** the store: a rewrite of the state file is one step because the new image is written to another file, flushed, and
+    renamed over the state file; nothing is written after the rename *)
+Definition store_violations (shape : list string) : list string :=
+  let is s x := String.eqb x s in
+  let before := before_first (is "os.Rename"%string) shape in
+  (if str_in "os.Rename"%string shape then [] else ["store.Write: no os.Rename"%string]) ++
+  (if str_in "File.Write"%string before || str_in "os.WriteFile"%string before then [] else ["store.Write: nothing is written before the rename"%string]) ++
+  (if str_in "File.Sync"%string (after_first (is "File.Write"%string) before) || str_in "os.WriteFile"%string before then [] else ["store.Write: no Sync between the write and the rename"%string]) ++
+  List.flat_map (fun x => if str_in x ["File.Write"; "File.WriteString"; "File.WriteAt"; "File.Truncate"; "File.Seek"; "os.WriteFile"; "os.Truncate"; "os.Remove"]%string
+                          then [scat ["store.Write: "; x; " after the rename"]%string] else [])
+                (after_first (is "os.Rename"%string) shape).
+Definition store_write_by_rename (shape : list string) : bool := nil_b (store_violations shape).
+
+(** ** diagnostics: a guard lemma is preceded by the statement that the list of its violations, headed by the name of the lemma
+    they break, is empty — Coq's error message for it ("Unable to unify [] with [...]") then carries which method, which
+    effect, under which guard (and the shapes the translator did not recognise) into the log and the replay file *)
+Definition blame (lemma : string) (vs : list string) : list string :=
+  match vs with [] => [] | _ => scat [lemma; " BROKEN:"]%string :: vs end.
+
+Definition session_diag (ms : list (string * list eff)) (helpers reasons : list string) : list string :=
+  blame "granularity_session (Proofs/GenAtomic.v: Sv_granularity_session)" (session_violations ms helpers ++ reads_violations ms ++ reasons).
+Definition timermap_diag (ms cbs : list (string * list eff)) (reasons : list string) : list string :=
+  blame "granularity_timermap (Proofs/GenAtomic.v: Sv_granularity_timermap)" (timermap_violations ms cbs ++ reasons).
+Definition store_diag (shape reasons : list string) : list string :=
+  blame "granularity_store (Proofs/GenAtomic.v: Sv_granularity_store)" (store_violations shape ++ reasons).
+
+(** ** what the booleans mean (independent of the generated data) *)
+Lemma flat_map_nil_inv {A B} (f : A -> list B) (l : list A) : List.flat_map f l = [] -> forall x, In x l -> f x = [].
+Proof.
+  induction l as [|a l IH]; simpl; intros H x Hx; [contradiction|].
+  apply app_eq_nil in H as [Ha Hl]. destruct Hx as [<-|Hx]; auto.
+Qed.
+
+Lemma guard_eqb_eq a b : guard_eqb a b = true -> a = b.
+Proof. destruct a, b; simpl; congruence. Qed.
+
+Lemma one_section_sound m rel effs :
+  one_section_violations m rel effs = [] ->
+  forall x, In x effs -> rel x = true -> e_guard x = WLock /\ e_sec x = first_sec rel effs.
+Proof.
+  intros H x Hx Hr. pose proof (flat_map_nil_inv _ _ H x Hx) as Hf.
+  unfold one_section_at in Hf. rewrite Hr in Hf.
+  destruct (guard_eqb (e_guard x) WLock) eqn:E; [|discriminate].
+  destruct (Nat.eqb (e_sec x) (first_sec rel effs)) eqn:E'; [|discriminate].
+  split; [now apply guard_eqb_eq|now apply Nat.eqb_eq].
+Qed.
+
+(** Every method of the session manager that changes the map — start-up methods and lock-free helpers aside — performs all its
+    effects on the map and all its writes of the store under the write lock, within one and the same critical section. *)
+Lemma session_mutations_atomic_sound ms helpers :
+  session_mutations_atomic ms helpers = true ->
+  forall m effs, In (m, effs) ms -> str_in m session_startup_methods = false -> str_in m helpers = false -> mutates effs = true ->
+  forall x y, In x effs -> In y effs -> rel_session x = true -> rel_session y = true ->
+  e_guard x = WLock /\ e_guard y = WLock /\ e_sec x = e_sec y.
+Proof.
+  unfold session_mutations_atomic, session_violations. intros H m effs Hin Hs Hh Hm x y Hx Hy Rx Ry.
+  destruct (List.flat_map _ ms ++ _) eqn:E in H; [|discriminate]. apply app_eq_nil in E as [E _].
+  pose proof (flat_map_nil_inv _ _ E (m, effs) Hin) as Hf. cbv beta in Hf.
+  change (fst (m, effs)) with m in Hf. change (snd (m, effs)) with effs in Hf. rewrite Hs, Hh in Hf. cbn [orb] in Hf.
+  unfold session_method_violations in Hf. rewrite Hm in Hf. apply app_eq_nil in Hf as [Hf _].
+  destruct (one_section_sound _ _ _ Hf x Hx Rx) as [Gx Sx]. destruct (one_section_sound _ _ _ Hf y Hy Ry) as [Gy Sy].
+  repeat split; congruence.
+Qed.
+
+(** Add, Remove, Reset and shutdown of the timer map perform all their effects on the map and on the timers under the write
+    lock, within one and the same critical section. *)
+Lemma timermap_ops_atomic_sound ms cbs :
+  timermap_ops_atomic ms cbs = true ->
+  forall m effs, str_in m (List.map fst timermap_ops) = true -> lookup_method m ms = Some effs ->
+  forall x y, In x effs -> In y effs -> rel_timer x = true -> rel_timer y = true ->
+  e_guard x = WLock /\ e_guard y = WLock /\ e_sec x = e_sec y.
+Proof.
+  unfold timermap_ops_atomic, timermap_violations. intros H m effs Hm Hl x y Hx Hy Rx Ry.
+  destruct (List.flat_map _ timermap_ops ++ _) eqn:E in H; [|discriminate]. apply app_eq_nil in E as [E _].
+  assert (Hop : exists ks, In (m, ks) timermap_ops).
+  { unfold str_in in Hm. apply List.existsb_exists in Hm as (n & Hn & He). apply String.eqb_eq in He. subst n.
+    apply List.in_map_iff in Hn as ([m' ks] & <- & Hk). now exists ks. }
+  destruct Hop as [ks Hop]. pose proof (flat_map_nil_inv _ _ E (m, ks) Hop) as Hf. cbv beta in Hf.
+  change (fst (m, ks)) with m in Hf. change (snd (m, ks)) with ks in Hf. rewrite Hl in Hf.
+  apply app_eq_nil in Hf as [_ Hf].
+  destruct (one_section_sound _ _ _ Hf x Hx Rx) as [Gx Sx]. destruct (one_section_sound _ _ _ Hf y Hy Ry) as [Gy Sy].
+  repeat split; congruence.
+Qed.
